@@ -535,6 +535,36 @@ def o_isofast(d):
     return None
 
 
+def o_eractor(c, y):
+    """every valid (month, day) corner of absolute year y built through LocalDate(year_of_era, m, d, calendar, era) must
+    equal the date built from the absolute year; fields that are invalid for the ABSOLUTE year must be rejected with
+    ValueError and fields valid for it must be accepted (the year-of-era number is another year: validation has to
+    happen after the era is resolved)"""
+    P = _P()
+    k = cal(c)
+    if not k.min_year <= y <= k.max_year:
+        return None
+    base = date(c, y, fm(c), 1)
+    e, yoe = base.era, base.year_of_era
+    months = k.get_months_in_year(y)
+    for m in sorted({1, 2, months, max(1, months - 1), fm(c)}):
+        dim = k.get_days_in_month(y, m)
+        for dd in (1, dim, dim + 1, 28, 29, 30):
+            valid = 1 <= dd <= dim
+            try:
+                x = P.LocalDate(yoe, m, dd, k, e)
+            except ValueError:
+                if valid:
+                    return F("era-constructor-rejects-valid-date", c, f"LocalDate({yoe}, {m}, {dd}, era={e.name}) rejected although absolute year {y} month {m} has {dim} days")
+                continue
+            if not valid:
+                return F("era-constructor-accepts-invalid-date", c, f"LocalDate({yoe}, {m}, {dd}, era={e.name}) accepted: absolute year {y} month {m} has {dim} days; it became {ymd(x)} day {x._days_since_epoch}")
+            w = date(c, y, m, dd)
+            if x != w or ymd(x) != (y, m, dd) or x._days_since_epoch != w._days_since_epoch:
+                return F("era-constructor-wrong-date", c, f"LocalDate({yoe}, {m}, {dd}, era={e.name}) = {ymd(x)} day {x._days_since_epoch}, expected {(y, m, dd)} day {w._days_since_epoch}")
+    return None
+
+
 def o_pack(y, m, d, o):
     if not (-16383 <= y <= 16384 and 1 <= m <= 32 and 1 <= d <= 64 and 0 <= o < 19):
         return None
@@ -810,6 +840,9 @@ def gen_day_ops(ctx, per_year_edge=2, n_month=2000, n_random=3000):
     return ops
 
 
+ERA_CASES = []
+
+
 def gen_field_ops(ctx, n=1500):
     rng = ctx.rng
     ops = []
@@ -865,6 +898,24 @@ def gen_field_ops(ctx, n=1500):
             [rng.randint(-25567, 47846) for _ in range(3000)] + [rng.randint(-4371222, 2932896) for _ in range(2000)] + \
             [-4371222, -4371223, 2932896, 2932897]:
         ops.append(f"cal.isofast {d}")
+    # the table-driven ISO path around EVERY year boundary of 1500..2700 (the optimised window and a wide margin: a
+    # window that is widened or moved must still agree with the general path) and a thinner sweep of all years
+    iso_starts = year_starts(0)
+    y0 = ranges()[0][0]
+    for i, st in enumerate(iso_starts):
+        y = y0 + i
+        if 1500 <= y <= 2700:
+            for j in range(-16, 17):
+                ops.append(f"cal.isofast {st + j}")
+        elif y % 7 == 0:
+            for j in (-1, 0, 1, 13, 31, 59, 60):
+                ops.append(f"cal.isofast {st + j}")
+    # era-based construction: LocalDate(year_of_era, month, day, calendar, era)
+    for c, (ylo, yhi, dlo, dhi) in enumerate(ranges()):
+        ys = [ylo, ylo + 1, yhi, yhi - 1, 0, 1, -1, 2, -3, -4, 4, 5, -99, -100, -399, -400, 1900, 2000] + [rng.randint(ylo, yhi) for _ in range(n // 20)]
+        for y in ys:
+            if ylo <= y <= yhi:
+                ERA_CASES.append((c, y))
     for _ in range(3000):
         y = rng.choice([-9998, 9999, 1, 0, -1, rng.randint(-16383, 16384), rng.randint(-9998, 9999)])
         ops.append(f"cal.pack {y} {rng.randint(1, 32)} {rng.randint(1, 64)} {rng.randrange(19)}")
@@ -926,6 +977,8 @@ def run(ctx):
     pcorrespond(ctx, "calendar.years", chunks(gen_year_ops(), 1500), exhaustive=True)
     ctx.note("t_years_s", round(time.time() - t0, 1))
     pcorrespond(ctx, "calendar.fields", chunks(gen_field_ops(ctx, ctx.scale(1000, 20000)), 4000))
+    ctx.check_cases("era.constructor (LocalDate(year_of_era, m, d, calendar, era) against the absolute-year date)",
+                    sorted(set(ERA_CASES)), lambda cy: o_eractor(*cy))
     ctx.note("t_fields_s", round(time.time() - t0, 1))
     if ctx.thorough:
         specs = []
@@ -943,6 +996,9 @@ def run(ctx):
 
 
 def replay_op(op, failure):
+    if op.startswith("(") and failure.get("key", "").startswith("era-constructor"):
+        import ast
+        return o_eractor(*ast.literal_eval(op))
     t = op.split(" ")
     if t[0] == "cal.wf":
         r = common.model_eval([op], DRIVER)[0]
